@@ -83,6 +83,27 @@ def outcome_class(s):
 
 
 # ----------------------------------------------------------------------------
+class Pending:
+    """violations are emitted round-robin over their keys at the end, so that every distinct key is among
+    the 25 that vlib.report prints in full"""
+
+    def __init__(self, ck):
+        self.ck, self.items = ck, []
+
+    def violation(self, kind, detail, key=None):
+        self.items.append((kind, detail, key))
+
+    def flush(self):
+        n, order = {}, []
+        for i, (kind, detail, key) in enumerate(self.items):
+            k = kind + json.dumps(key, sort_keys=True)
+            n[k] = n.get(k, 0) + 1
+            order.append((n[k], i))
+        for _, i in sorted(order):
+            self.ck.violation(*self.items[i][:2], key=self.items[i][2])
+        self.items = []
+
+
 class Phases:
     """wall time per phase of the check, written into the evidence (coverage.phase_s)"""
 
@@ -101,6 +122,9 @@ class Phases:
 def main():
     ck = Check("C16")
     ph = Phases(ck)
+    global PV
+    pend = Pending(ck)
+    PV = pend.violation
     tier = ck.tier
     rnd = random.Random(ck.seed)
     ck.rule = (
@@ -116,7 +140,7 @@ def main():
             r = tlc.run(SPEC, "AlleleFilter", cfg, timeout=1500, keep_stdout=False)
             ck.add_tlc(r, "AlleleFilter/" + cfg)
             if r.violated:
-                ck.violation("model", {"cfg": cfg, "invariant": r.violated, "text": r.error_text[:1500]},
+                PV("model", {"cfg": cfg, "invariant": r.violated, "text": r.error_text[:1500]},
                              key={"model": "AlleleFilter", "cfg": cfg})
             states.extend(r.printed)
         killed = 0
@@ -154,13 +178,13 @@ def main():
     for s, (op, q), o in zip(strings, want, rr["result"]):
         ck.evaluations += 1
         if o.get("field") != "RF_1" or o.get("op") != op or Fraction(o.get("value", -1)) != q:
-            ck.violation("filter-parse", {"string": s, "impl": o, "model": {"field": "RF_1", "op": op, "value": str(q)}},
+            PV("filter-parse", {"string": s, "impl": o, "model": {"field": "RF_1", "op": op, "value": str(q)}},
                          key={"site": "parse_allele_filter", "op": op})
     for s, o in zip(rejects, rr["result"][len(strings):]):
         ck.evaluations += 1
         if "rejected" not in o:
             # a string outside the documented '<field><operator><value>' grammar must not silently become a predicate
-            ck.violation("filter-parse", {"string": s, "impl": o, "model": "rejected with ValueError"},
+            PV("filter-parse", {"string": s, "impl": o, "model": "rejected with ValueError"},
                          key={"site": "parse_allele_filter", "string": s})
     ck.note("filter_strings_parsed", len(strings) + len(rejects))
 
@@ -196,22 +220,22 @@ def main():
             if "error" in o:
                 tagtype = c["rfType"] if c["tag"] == "RF" else "-"
                 aborted[(tagtype, o["etype"])] = aborted.get((tagtype, o["etype"]), 0) + 1
-                ck.violation("aborted", dict(inst, error=o["error"],
+                PV("aborted", dict(inst, error=o["error"],
                                              model={"alts_kept": s["kept"], "masked": s["masked"], "weights": s["w"], "outcome": s["outcome"]}),
                              key={"site": SITE, "tag_type": tagtype, "error": o["etype"]})
                 continue
             want_alts = [ALTS[k - 2] for k in s["kept"] if k > 1]
             if o["alts"] != want_alts or o["ref"] != REF:
-                ck.violation("alts", dict(inst, impl=o["alts"], model=want_alts), key={"site": SITE, "field": "alts", "fld": c["fld"], "op": c["op"]})
+                PV("alts", dict(inst, impl=o["alts"], model=want_alts), key={"site": SITE, "field": "alts", "fld": c["fld"], "op": c["op"]})
             if o["mask"] != s["masked"]:
-                ck.violation("mask", dict(inst, impl=o["mask"], model=s["masked"]), key={"site": SITE, "field": "mask", "fld": c["fld"], "op": c["op"]})
+                PV("mask", dict(inst, impl=o["mask"], model=s["masked"]), key={"site": SITE, "field": "mask", "fld": c["fld"], "op": c["op"]})
             if s["den"] == 0:
                 okf = len(o["freq"]) == len(s["w"]) and all(x is None for x in o["freq"])
             else:
                 okf = len(o["freq"]) == len(s["w"]) and all(
                     x is not None and close_prob(x, Fraction(w, s["den"])) for x, w in zip(o["freq"], s["w"]))
             if not okf:
-                ck.violation("frequencies", dict(inst, impl=o["freq"], model=["%d/%d" % (w, s["den"]) for w in s["w"]]),
+                PV("frequencies", dict(inst, impl=o["freq"], model=["%d/%d" % (w, s["den"]) for w in s["w"]]),
                              key={"site": SITE, "field": "frequencies", "tag": c["tag"]})
     ck.traces += len(states)
     ck.note("states_replayed", len(states))
@@ -225,13 +249,13 @@ def main():
         byconf.setdefault(config_key(s["c"]), []).append(i)
     confs = sorted(byconf)
     per_class = 1 if tier == "quick" else 2
-    max_conf = 36 if tier == "quick" else len(confs)
+    max_conf = 30 if tier == "quick" else len(confs)
     if len(confs) > max_conf:
         # keep every (fld, op, tag, types) at least once, thresholds rotate
         rnd.shuffle(confs)
         pick, seen_k = [], set()
         for k in confs:
-            kk = (k[0], k[1], k[3], k[4], k[5])
+            kk = (k[0], k[1], k[3]) if tier == "quick" else (k[0], k[1], k[3], k[4], k[5])
             if kk not in seen_k:
                 seen_k.add(kk)
                 pick.append(k)
@@ -240,7 +264,11 @@ def main():
                 break
             if k not in pick:
                 pick.append(k)
-        confs = sorted(pick[:max(max_conf, len(seen_k))])
+        # ... and both field types under a prior tag
+        for typ in ("Integer", "Float"):
+            if not any(k[3] == "RF" and k[4] == typ for k in pick[:max(max_conf, len(seen_k))]):
+                pick.insert(0, next(k for k in confs if k[3] == "RF" and k[4] == typ))
+        confs = sorted(set(pick[:max(max_conf, len(seen_k))]))
     programs = ["call", "call-exact", "call-pedigree"]
     runs = []
     for k in confs:
@@ -261,10 +289,11 @@ def main():
             extra += ["--prior-frequencies", c0["tag"]]
         if fstr:
             extra += ["--filter-input-haplotypes", fstr]
-        for prog in programs:
+        progs_here = programs if tier == "thorough" else ["call-exact", programs[2 * ((len(runs) // 2) % 2)]]
+        for prog in progs_here:
             argv = ["--bam"] + BAMS + ["--ploidy", str(PLOIDY), "--haplotypes", path, "--report", "AFPRIOR", "AFP", "GP"] + extra
             if prog != "call-exact":
-                argv += ["--mcmc-steps", "120", "--mcmc-burn", "60", "--mcmc-seed", str(1 + ck.seed)]
+                argv += ["--mcmc-steps", "80", "--mcmc-burn", "40", "--mcmc-seed", str(1 + ck.seed)]
             if prog == "call-pedigree":
                 argv += ["--sample-parents", "@simple.pedigree.132.txt"]
             runs.append((prog, argv, chosen, fstr, c0["tag"]))
@@ -322,9 +351,9 @@ def main():
         detail = {"argv": [prog] + [a for a in argv if not a.startswith("@")][-8:], "exit_status": r["rc"], "stderr_tail": r["err"][-400:]}
         if r["rc"] != 0:
             last = [l for l in r["err"].strip().splitlines() if l.strip()][-1:] or ["?"]
-            ck.violation("aborted", detail, key={"site": "cli:" + prog, "tag_type": tagtype, "error": last[0].split(":")[0].split(".")[-1]})
+            PV("aborted", detail, key={"site": "cli:" + prog, "tag_type": tagtype, "error": last[0].split(":")[0].split(".")[-1]})
         elif "out" in o and data_lines(r["out"]) != data_lines(o["out"]):
-            ck.violation("cli-differs", detail, key={"site": "cli:" + prog, "field": "records"})
+            PV("cli-differs", detail, key={"site": "cli:" + prog, "field": "records"})
     ck.note("cli_runs", len(cli))
     ck.note("program_runs", len(runs))
     ck.note("program_runs_aborted", {"%s/%s" % k: v for k, v in run_aborts.items()})
@@ -341,6 +370,7 @@ def main():
     except Exception:
         pass
     ph.mark("end")
+    pend.flush()
     ck.exhaustive = True
     ck.assumptions = [
         "TLC and the CommunityModules Json/IOUtils operators are correct",
@@ -392,7 +422,7 @@ def golden_events(ck):
         for prog in ("call", "call-exact", "call-pedigree"):
             argv = ["--bam"] + BAMS + ["--ploidy", "4", "--haplotypes", "@mock.input.frequencies.vcf", "--report", "AFPRIOR", "AFP", "GP"] + extra
             if prog != "call-exact":
-                argv += ["--mcmc-steps", "120", "--mcmc-burn", "60", "--mcmc-seed", str(1 + ck.seed)]
+                argv += ["--mcmc-steps", "80", "--mcmc-burn", "40", "--mcmc-seed", str(1 + ck.seed)]
             if prog == "call-pedigree":
                 argv += ["--sample-parents", "@simple.pedigree.132.txt"]
             runs.append((prog, argv, tag, flt))
@@ -451,9 +481,9 @@ def validate(ck, events, meta):
             if p["clause"] == "RunAborted":
                 tagtype = c["rfType"] if c["tag"] == "RF" else "-"
                 root = (m.get("chain") or [m.get("error") or "?"])[-1].split(":")[0]
-                ck.violation("aborted", m, key={"site": "program:" + e["prog"], "tag_type": tagtype, "error": root})
+                PV("aborted", m, key={"site": "program:" + e["prog"], "tag_type": tagtype, "error": root})
             else:
-                ck.violation("trace-reject", dict(m, clause=p["clause"], output=e["out"]),
+                PV("trace-reject", dict(m, clause=p["clause"], output=e["out"]),
                              key={"site": "program:" + e["prog"], "clause": p["clause"], "fld": c["fld"], "tag": c["tag"]})
     ck.traces += len(events)
     ck.evaluations += len(events)
@@ -463,7 +493,7 @@ def validate(ck, events, meta):
     good = [e for i, e in enumerate(events) if i not in rejected and not e["crashed"] and not e["missing"]
             and "PASS" in e["out"]["filters"] and len(e["out"]["kept"]) >= 2]
     if not good:
-        if not ck.violations:
+        if not ck.violations and not PV.__self__.items:
             ck.machinery_failure("no accepted program record to corrupt")
         return
     ck.sample({"kind": "program-record", "event": good[0]})
